@@ -40,7 +40,7 @@ static void on_phase(int tag, const std::vector<cell_ptr>* lst) {
 }
 
 static tis::Scenario scenario_of(const Args& a, long i, Rng& g) {
-    int what = a.geti("what", -1); if (what < 0) what = (int)(i % 8);
+    int what = a.geti("what", -1); if (what < 0) what = (int)(i % 9);   // 0-6 named families, 7 polygonal cubes (initial triangulation), 8 cubes with a degenerate face in contact
     int iters = (int)a.geti("iterations", 0); if (iters <= 0) iters = g.range((int)a.geti("min_iterations", 40), (int)a.geti("max_iterations", 120));
     return tis::make_scenario(g, what, iters, a.geti("allow_triangulation", 1) != 0);
 }
